@@ -90,6 +90,10 @@ def run(ctx):
     seqs = corpus(ctx) + [lq_crash_sequence(r, r.randrange(4, 40)) for _ in range(10000 if ctx.thorough() else 200)]
     run_stream(ctx, seqs)
     ctx.sample(seqs[len(corpus(ctx))][:10])
+    # a seed acknowledged to the queue is deleted there for good: around a stop request (reactor frozen while the stages still hold seeds) the
+    # real finisher must acknowledge only seeds whose whole tree is done - the others stay tracked and are handed back by the source
+    from . import c01
+    c01.stage_level(ctx, 120 if ctx.thorough() else 14)
     from . import e2e
     e2e.c04_scenarios(ctx)
     ctx.assumptions += ["SQLite commits atomically and survives a killed process; the WARC library appends whole records and signals the feedback "
@@ -99,5 +103,8 @@ def run(ctx):
 
 def replay(ctx, doc):
     rp = doc.get("replay", doc)
+    if rp.get("domain") == "pipeline":
+        from . import c01
+        return c01.replay(ctx, doc)
     if "ops" in rp:
         run_stream(ctx, [rp["ops"]])
